@@ -72,7 +72,8 @@ class AV:
 
 TOP = AV()
 _SX_NODES = (ast.BinOp, ast.Compare, ast.Call, ast.Subscript, ast.UnaryOp, ast.Attribute, ast.IfExp)
-_SX_TYS = frozenset([None, 'ndarray', 'float', 'int', 'Series', 'DataFrame', 'list', 'tuple', 'bool', 'Row', 'FloatWithUnit'])
+_SX_TYS = frozenset([None, 'ndarray', 'float', 'int', 'Series', 'DataFrame', 'list', 'tuple', 'bool', 'Row', 'FloatWithUnit', 'Lattice', 'Structure',
+                     'dict', 'str', 'set'])
 _SX_PARSE = {}
 SX_LONG = {}  # digest -> abbreviated definition text
 
@@ -990,6 +991,11 @@ class Interp:
         if fi is not None:
             if fi.is_property:
                 self.emit('property_read', node, obj=base, prop=fi.qualname)
+                if base.oids and len(base.oids) > 1:
+                    # one of several objects: the property of each, joined
+                    vals = [self.call_function(fi, [], {}, st, self_av=base.w(oid=o, oids=None), node=node) for o in sorted(base.oids) if o in st.heap]
+                    if vals:
+                        return join_all(vals)
                 return self.call_function(fi, [], {}, st, self_av=base, node=node)
             if fi.is_staticmethod:
                 return AV(ty='func', fn=fi)
